@@ -11,5 +11,7 @@ CONSTANTS
   DirectCalls = TRUE
   MaxMsgLen = 1
   AsyncApply = FALSE
+  MaxPerRequest = 99
+  RecursiveRLock = FALSE
 POSTCONDITION TraceReport
 CHECK_DEADLOCK FALSE
